@@ -2,6 +2,7 @@ package store
 
 import (
 	"context"
+	"sync/atomic"
 
 	lru "github.com/hashicorp/golang-lru/v2"
 	"github.com/ipfs/go-datastore"
@@ -15,6 +16,8 @@ import (
 type heightIndexer[H header.Header[H]] struct {
 	ds    datastore.Batching
 	cache *lru.TwoQueueCache[uint64, header.Hash]
+	// deletions counts committed deletions, shared with the Store, see Store.deletions
+	deletions *atomic.Uint64
 }
 
 // newHeightIndexer creates new heightIndexer.
@@ -28,8 +31,9 @@ func newHeightIndexer[H header.Header[H]](
 	}
 
 	return &heightIndexer[H]{
-		ds:    ds,
-		cache: cache,
+		ds:        ds,
+		cache:     cache,
+		deletions: new(atomic.Uint64),
 	}, nil
 }
 
@@ -43,6 +47,7 @@ func (hi *heightIndexer[H]) HashByHeight(
 		return v, nil
 	}
 
+	deletions := deletionsSeen(ctx, hi.deletions)
 	val, err := hi.ds.Get(ctx, heightKey(h))
 	if err != nil {
 		return nil, err
@@ -50,6 +55,10 @@ func (hi *heightIndexer[H]) HashByHeight(
 
 	if cache {
 		hi.cache.Add(h, header.Hash(val))
+		if hi.deletions.Load() != deletions {
+			// deleted and evicted in the meantime, possibly
+			hi.cache.Remove(h)
+		}
 	}
 	return val, nil
 }
